@@ -382,7 +382,10 @@ POW_X = ["0", "1", "(-1)", "2", "(-2)", "(-8)", "10", "10^400", "(1/2)", "(-1/2)
          "2.5", "1.5e-300", "pi", "3!", "(0*3!)", "171!", "(10^400+1/2)", "0.0", "(-0.0)"]
 POW_Y = ["0", "1", "(-1)", "2", "(-2)", "3", "(-3)", "10", "1024", "(-1074)", "(-1080)", "(1/2)", "(-1/2)", "(1/3)", "(2/3)",
          "(-2/3)", "(3/2)", "0.5", "(-0.5)", "2.5", "(-2.5)", "1024.5", "(2049/2)", "2000.5", "3.0", "3!", "3!/4", "(1/10^400)",
-         "1.5e-300", "pi", "10^400", "(-(10^400))", "(10^400+1/2)"]
+         "1.5e-300", "pi", "10^400", "(-(10^400))", "(10^400+1/2)",
+         # floats one or a few ulps from a whole number: still fractional, so a negative base must be refused
+         "0.9999999999999998", "1.9999999999999998", "2.0000000000000004", "2.999999999999993", "((1-0.9)*10)",
+         "(-1.0000000000000002)", "4503599627370495.5"]
 LOG_X = ["0", "1", "(-1)", "2", "8", "(-8)", "10^400", "(1/2)", "(-1/2)", "(1/10^300)", "(1/10^400)", "(1+1/10^400)",
          "(10^400+1/2)", "0.5", "(-0.5)", "5.0e-324", "1.0000000000000002", "0.9999999999999999", "e", "3!", "(0*3!)", "171!",
          "0.0", "1.5e-324"]
@@ -538,7 +541,10 @@ def seeded_cases(rng, n):
                 x = "(-7/3)"
             if not x.startswith("(-"):
                 x = "(-%s)" % x
-            y = rng.choice([str(rng.randint(0, 9)), "(-%d)" % rng.randint(1, 9), "0.5", "(1/3)", "(2/3)", "(-1/2)", "2.5", "3!"])
+            k = rng.randint(1, 9)
+            y = rng.choice([str(rng.randint(0, 9)), "(-%d)" % rng.randint(1, 9), "0.5", "(1/3)", "(2/3)", "(-1/2)", "2.5", "3!",
+                            "%d.0" % k, repr(k * (1 - 2.0 ** -52)), repr(k * (1 + 2.0 ** -51)), repr(k + 10.0 ** -rng.randint(7, 13)),
+                            "(%d+1/10^%d)" % (k, rng.randint(8, 30))])
         else:             # wide magnitudes
             x = r_num(rng, pos=True)
             y = rng.choice([r_float(rng, lo=-5, hi=2), "(%d/%d)" % (rng.randint(-300, 300), rng.randint(2, 7)), "0.5", "(-0.5)", "(1/3)"])
@@ -562,6 +568,8 @@ CORPUS = [
     ("1.5e300*1.5e300*0.5", "finite"), ("(1.5e308*1.5)-(1.5e308*1.5)", "finite"), ("mean({1.5e308+0.5, 1.7e308+0.5})", "finite"),
     ("{1.5e308*1.5}", "finite"), ("x = 1.5e308*1.5", "finite"), ("(1.5e308*1.5) m", "finite"), ("1.5e308 km * 1.5", "finite"),
     ("e^1000", "finite"), ("e^(-1000)", "finite"), ("pi*1.5e308", "finite"), ("0.5/1.5e-320", "finite"), ("0.1/5.0e-324", "finite"),
+    ("(-8)^((1-0.9)*10)", "err"), ("(-8)^1.9999999999999998", "err"), ("(-8)^2.0000000000000004", "err"),
+    ("(-8 m)^0.9999999999999998", "err"), ("(-8)^(3+1/10^30)", "err"), ("(-8)^2.0", "I:64"),
     ("log(1.5e308*1.5, 2)", "finite"), ("sqrt(1.5e308*1.5)", "finite"), ("(0.1*1.5e308*1.5e10)", "finite"),
 ]
 
